@@ -85,7 +85,14 @@ def eq_key(f: FuncInfo):
                 attrs.add(l.attr)
     rets = [n.value for n in ast.walk(f.node) if isinstance(n, ast.Return) and n.value is not None]
 
-    def boolish(e):
+    local = {}
+    for n in ast.walk(f.node):
+        if isinstance(n, ast.Assign) and len(n.targets) == 1 and isinstance(n.targets[0], ast.Name):
+            local.setdefault(n.targets[0].id, []).append(n.value)
+
+    def boolish(e, depth=0):
+        if isinstance(e, ast.Name) and e.id in local and depth < 4:
+            return all(boolish(v, depth + 1) for v in local[e.id])      # `same_name = a == b; return same_name and ...`
         if isinstance(e, (ast.Compare,)):
             return True
         if isinstance(e, ast.BoolOp):
@@ -163,6 +170,88 @@ def _non_bool_return(program: Program, c, f: FuncInfo, seen: set):
             return r
     return None
 
+
+def _as_bool_expr(f: FuncInfo):
+    """the body of a comparison method as one expression: `if c: return A` ... `return B` is `A if c else B`"""
+    def seq(stmts):
+        stmts = [st for st in stmts if not (isinstance(st, ast.Expr) and isinstance(st.value, ast.Constant))]
+        if not stmts:
+            return None
+        st = stmts[0]
+        if isinstance(st, ast.Return):
+            return st.value
+        if isinstance(st, ast.If):
+            a = seq(st.body)
+            b = seq(st.orelse) if st.orelse else seq(stmts[1:])
+            if a is None or b is None:
+                return None
+            return ast.IfExp(test=st.test, body=a, orelse=b)
+        return None
+    return seq(f.node.body)
+
+
+def _ne_negates_eq(ef: FuncInfo, nf: FuncInfo):
+    """True / False when both methods are boolean combinations of the same atoms (isinstance tests, attribute
+    comparisons, `self.__eq__(other)`) and `!=` is / is not the negation of `==` under every truth assignment of the
+    atoms; None when a shape is not understood"""
+    import itertools
+    e_eq, e_ne = _as_bool_expr(ef), _as_bool_expr(nf)
+    if e_eq is None or e_ne is None or len(ef.params) < 2 or len(nf.params) < 2:
+        return None
+    ren = {nf.params[0]: ef.params[0], nf.params[1]: ef.params[1]}
+
+    class Ren(ast.NodeTransformer):
+        def visit_Name(self, n):
+            return ast.copy_location(ast.Name(id=ren.get(n.id, n.id), ctx=n.ctx), n)
+    import copy as _copy
+    e_ne = Ren().visit(_copy.deepcopy(e_ne))
+    atoms: dict[str, int] = {}
+
+    def atom(e) -> int:
+        return atoms.setdefault(ast.unparse(e), len(atoms))
+
+    class Unknown(Exception):
+        pass
+
+    def ev(e, val, depth=0):
+        if isinstance(e, ast.Constant) and isinstance(e.value, bool):
+            return e.value
+        if isinstance(e, ast.UnaryOp) and isinstance(e.op, ast.Not):
+            return not ev(e.operand, val, depth)
+        if isinstance(e, ast.BoolOp):
+            vs = [ev(v, val, depth) for v in e.values]
+            return all(vs) if isinstance(e.op, ast.And) else any(vs)
+        if isinstance(e, ast.IfExp):
+            return ev(e.body, val, depth) if ev(e.test, val, depth) else ev(e.orelse, val, depth)
+        if isinstance(e, ast.Compare) and len(e.ops) == 1 and isinstance(e.ops[0], (ast.Eq, ast.NotEq, ast.Is, ast.IsNot)):
+            pos = ast.Compare(left=e.left, ops=[ast.Eq() if isinstance(e.ops[0], (ast.Eq, ast.NotEq)) else ast.Is()], comparators=e.comparators)
+            v = val[atom(pos)]
+            return v if isinstance(e.ops[0], (ast.Eq, ast.Is)) else not v
+        if isinstance(e, ast.Call) and isinstance(e.func, ast.Name) and e.func.id == "isinstance":
+            return val[atom(e)]
+        if (isinstance(e, ast.Call) and isinstance(e.func, ast.Attribute) and e.func.attr == "__eq__" and isinstance(e.func.value, ast.Name)
+                and e.func.value.id == ef.params[0] and depth < 2):
+            return ev(e_eq, val, depth + 1)
+        raise Unknown()
+    # discover the atoms with a dry run over a generous table, then enumerate
+    try:
+        for _ in range(2):
+            n = max(len(atoms), 1)
+            for bits in itertools.product([False, True], repeat=min(n, 8)):
+                val = list(bits) + [False] * 16
+                ev(e_eq, val)
+                ev(e_ne, val)
+        n = len(atoms)
+        if n > 8:
+            return None
+        for bits in itertools.product([False, True], repeat=n):
+            val = list(bits) + [False] * 4
+            if ev(e_ne, val) != (not ev(e_eq, val)):
+                return False
+        return True
+    except Unknown:
+        return None
+
 def check(program: Program, run: Run) -> None:
     run.explanation = (
         "Data-model contract decided from the syntax tree and the render skeletons: for every class defining __eq__/__hash__ "
@@ -222,8 +311,10 @@ def check(program: Program, run: Run) -> None:
                 run.ob("C17/R2 __eq__ returns bool over the same attributes on both sides", c.qualname, is_bool, where=ef.loc())
             nf = c.resolve("__ne__")
             if nf is not None and is_bool:
-                src = ast.unparse(nf.node)
-                neg = "not" in src and "__eq__" in src or "!=" in src
+                neg = _ne_negates_eq(ef, nf)
+                if neg is None:          # a shape the truth table does not cover: the textual idioms
+                    src = ast.unparse(nf.node)
+                    neg = "not" in src and "__eq__" in src or "!=" in src
                 run.ob("C17/R2 __ne__ is the negation of __eq__", c.qualname, neg, where=nf.loc())
                 if not neg:
                     run.finding(f"C17/ne-not-negation:{c.qualname}", f"{nf.qualname} is not the negation of __eq__", where=nf.loc(), rule="R2")
@@ -248,6 +339,39 @@ def check(program: Program, run: Run) -> None:
             run.finding(f"C17/eq-not-boolean:{k.qualname}",
                         f"== of a {k.qualname} ({ef.qualname}) {why}: the answer is an always-truthy object for those operands, so == is not symmetric, `x in [..]` succeeds for "
                         "every x, and the set/dict answer (by hash) differs from the linear search", where=ef.loc(), rule="R2")
+
+    # R2c: symmetry across the class lattice.  An __eq__ that admits `isinstance(other, T)` answers for every pair (x, y)
+    # with y a T; when some subclass S of T compares with a different __eq__, `x == y` (decided by x's method) and `y == x`
+    # (decided by S's) are two different questions -- e.g. a comparison hoisted into a common base with the type test
+    # widened to the base, while two subclasses keep their stricter overrides
+    nsym = 0
+    for ef in eqs:
+        if ef.cls is None or len(ef.params) < 2:
+            continue
+        _a, isb = eq_key(ef)
+        if not isb:
+            continue
+        tested = []
+        for n in ast.walk(ef.node):
+            if (isinstance(n, ast.Call) and isinstance(n.func, ast.Name) and n.func.id == "isinstance" and len(n.args) == 2
+                    and isinstance(n.args[0], ast.Name) and n.args[0].id == ef.params[1]):
+                spec = n.args[1]
+                for e in (spec.elts if isinstance(spec, ast.Tuple) else [spec]):
+                    k = program.resolve_expr_class(ef.module, e, None)
+                    if k is not None:
+                        tested.append(k)
+        for T in tested:
+            nsym += 1
+            others = sorted({S.qualname for S in program.all_classes() if S.is_subclass_of(T) and S.resolve("__eq__") not in (None, ef)})
+            run.ob("C17/R2c every class admitted by the type test of an __eq__ compares with that same __eq__", f"{ef.qualname}:{T.qualname}", not others,
+                   detail=f"other __eq__ in {others[:4]}" if others else "", where=ef.loc())
+            if others:
+                run.finding(f"C17/eq-asymmetric:{ef.qualname}:{T.qualname}",
+                            f"{ef.qualname} admits any {T.qualname} as the other operand, but {', '.join(others[:4])} compare with an __eq__ of their own: `x == y` and `y == x` are "
+                            "answered by different methods (and the hashes of an 'equal' pair differ), so == is not symmetric and list membership disagrees with set membership",
+                            where=ef.loc(), rule="R2")
+    if nsym < 3:
+        raise AnalysisError(f"instance count below floor: type tests in __eq__ methods {nsym}")
 
     # R2: element classes of sets/dicts built by the library
     seen = set()
